@@ -175,6 +175,20 @@ def _script_safe(ctx, ws, fl, val, at, label='script-safe:embedded') -> None:
         for o in ops:
             if o.startswith('call:') and any(k in o for k in ('escape_script', 'script_safe', 'safe_json', 'escape_json')):
                 sanitised = True
+    # whatever is rewritten in the serialised text must still be JSON for the same value: inside a JSON string only \" \\ \/ \b \f \n \r \t \uXXXX
+    # are escapes, so `a -> b` is value-preserving exactly when b, read as JSON string content, decodes to a
+    import json as _json
+    for n in ast.walk(ws.node):
+        if isinstance(n, ast.Call) and isinstance(n.func, ast.Attribute) and n.func.attr == 'replace' and len(n.args) == 2 \
+                and all(isinstance(a, ast.Constant) and isinstance(a.value, str) for a in n.args) and 'call:dumps' in fl.atoms(n.func.value, n):
+            a_, b_ = n.args[0].value, n.args[1].value
+            try:
+                same = '"' not in a_ + b_ and _json.loads('"' + b_ + '"') == _json.loads('"' + a_ + '"')
+            except ValueError:
+                same = False
+            ctx.check(same, 'C12.R2', ws, f'{label}:rewrite:{a_}', f'{a_!r} -> {b_!r} is another JSON spelling of the same text',
+                      f'the serialised data is rewritten {a_!r} -> {b_!r}, which is not a JSON spelling of the same text (JSON knows no such escape): '
+                      f'a description containing {a_!r} makes the embedded data undecodable or changes it', n)
     ctx.check(has_dumps and sanitised, 'C12.R2', ws, label, 'embedded JSON = json.dumps(...) with "</" neutralised',
               ('value does not come from json.dumps' if not has_dumps else
                'json.dumps output is placed inside <script> without neutralising "</": a description such as "</script><b>" ends the script element, '
